@@ -4,10 +4,14 @@ package checks
 
 import (
 	"bytes"
+	simappparams "cosmossdk.io/simapp/params"
 	"crypto/ecdsa"
 	"fmt"
+	codectypes "github.com/cosmos/cosmos-sdk/codec/types"
+	authtx "github.com/cosmos/cosmos-sdk/x/auth/tx"
 	"math/big"
 	"math/rand"
+	"strings"
 	"testing"
 
 	sdk "github.com/cosmos/cosmos-sdk/types"
@@ -55,6 +59,7 @@ func genKey(rng *rand.Rand) *ecdsa.PrivateKey {
 func TestC18(t *testing.T) {
 	r := report.Start("C18")
 	defer r.Finish()
+	var batch []*ethtypes.Transaction
 	enc := encoding.MakeConfig(app.ModuleBasics)
 	n := r.Pick(48000, 4000000)
 	for i := 0; i < n; i++ {
@@ -303,6 +308,18 @@ func TestC18(t *testing.T) {
 			r.Violation(id, sig("envelope-fee/gas"), fmt.Sprintf("envelope gas=%d fee=%s want gas=%d fee=%s; %s", feeTx.GetGas(), feeTx.GetFee(), tx.Gas(), wantFee, desc), nil)
 			continue
 		}
+		// several messages in one envelope: unwrapping any of them by hash must return that message
+		// and leave every message of the envelope with its own hash
+		batch = append(batch, tx)
+		if len(batch) >= 2+rng.Intn(3) {
+			if what := c18Envelope(enc, batch, rng); what != "" {
+				r.Violation(id, "multi-message-envelope|"+strings.SplitN(what, ":", 2)[0], what, nil)
+			} else {
+				r.Count("multi_message_envelopes", 1)
+				r.Nontriv(fmt.Sprintf("envelope|%d-messages", len(batch)))
+			}
+			batch = nil
+		}
 		r.Count(fmt.Sprintf("roundtrips/type%d", typ), 1)
 		r.Nontriv(fmt.Sprintf("type%d|%s|%s|chain-%s|value-%s|price-%s|tip-%s|%s|%s", typ, prot, toCls, cidCls, vCls, gpCls, map[bool]string{true: tipCls, false: "-"}[typ == 2], dCls, aCls))
 		r.Sample(fmt.Sprintf("type%d", typ), desc)
@@ -400,4 +417,65 @@ func diffTx(a, b *ethtypes.Transaction, signer ethtypes.Signer, from common.Addr
 		return "hash"
 	}
 	return ""
+}
+
+// c18Envelope wraps several signed transactions into one Cosmos transaction, encodes, decodes and
+// unwraps each by hash (and once by a hash that is not in the envelope).
+func c18Envelope(enc simappparams.EncodingConfig, txs []*ethtypes.Transaction, rng *rand.Rand) string {
+	b := enc.TxConfig.NewTxBuilder()
+	var msgs []sdk.Msg
+	for _, tx := range txs {
+		m := &evmtypes.MsgEthereumTx{}
+		if err := m.FromEthereumTx(tx); err != nil {
+			return ""
+		}
+		msgs = append(msgs, m)
+	}
+	if err := b.SetMsgs(msgs...); err != nil {
+		return ""
+	}
+	opt, err := codectypes.NewAnyWithValue(&evmtypes.ExtensionOptionsEthereumTx{})
+	if err != nil {
+		return ""
+	}
+	if eb, ok := b.(authtx.ExtensionOptionsTxBuilder); ok {
+		eb.SetExtensionOptions(opt)
+	}
+	bz, err := enc.TxConfig.TxEncoder()(b.GetTx())
+	if err != nil {
+		return "encode: " + err.Error()
+	}
+	check := func(dec sdk.Tx, after string) string {
+		for i, m := range dec.GetMsgs() {
+			em := m.(*evmtypes.MsgEthereumTx)
+			if em.Hash != txs[i].Hash().Hex() || em.AsTransaction().Hash() != txs[i].Hash() {
+				return fmt.Sprintf("recorded-hash≠ethereum-hash: after %s, message %d of %d records %s, its transaction hashes to %s (original %s)", after, i, len(txs), em.Hash, em.AsTransaction().Hash().Hex(), txs[i].Hash().Hex())
+			}
+		}
+		return ""
+	}
+	order := rng.Perm(len(txs))
+	dec, err := enc.TxConfig.TxDecoder()(bz)
+	if err != nil {
+		return "decode: " + err.Error()
+	}
+	if w := check(dec, "decoding"); w != "" {
+		return w
+	}
+	for _, i := range order {
+		got, err := evmtypes.UnwrapEthereumMsg(&dec, txs[i].Hash())
+		if err != nil || got == nil {
+			return fmt.Sprintf("unwrap-error: message %d of %d not found by its hash: %v", i, len(txs), err)
+		}
+		if got.AsTransaction().Hash() != txs[i].Hash() || got.Hash != txs[i].Hash().Hex() {
+			return fmt.Sprintf("unwrap-returns-other-message: asked for %s, got %s", txs[i].Hash().Hex(), got.AsTransaction().Hash().Hex())
+		}
+		if w := check(dec, fmt.Sprintf("unwrapping message %d", i)); w != "" {
+			return w
+		}
+	}
+	if _, err := evmtypes.UnwrapEthereumMsg(&dec, common.HexToHash("0x1234")); err == nil {
+		return "unwrap-foreign-hash: a hash that is not in the envelope was found"
+	}
+	return check(dec, "looking up a hash that is not in the envelope")
 }
